@@ -128,6 +128,8 @@ struct Builder {
     body: Vec<String>,
     helper_extra: Vec<Vec<String>>, // planted lines per helper (before its `ret`)
     aux_extra: Vec<String>,
+    /// planted top-level lines of the main file (after the helpers)
+    top_extra: Vec<String>,
     counter: usize,
     used_std: bool,
 }
@@ -267,6 +269,10 @@ impl Builder {
             }
             main.push_str(&format!("    ret a + {}\nend\n", k));
         }
+        for l in &self.top_extra {
+            main.push_str(l);
+            main.push('\n');
+        }
         main.push_str("start :: fn do\n");
         for l in &self.body {
             main.push_str(l);
@@ -305,6 +311,7 @@ fn gen_program(t: &mut Tape, class: &str, uses_std: bool) -> BTreeMap<String, St
         body: Vec::new(),
         helper_extra: Vec::new(),
         aux_extra: Vec::new(),
+        top_extra: Vec::new(),
         counter: 0,
         used_std: false,
     };
@@ -362,6 +369,26 @@ fn gen_program(t: &mut Tape, class: &str, uses_std: bool) -> BTreeMap<String, St
             let k = 1 + t.below(3);
             for _ in 0..k {
                 let q = b.fresh("q");
+                // every fourth planted error is one that is found outside function bodies / by a later stage:
+                // dependency cycles (also of length one), duplicate definitions, a missing file, a misplaced
+                // statement, a loop exit outside a loop, a conflict marker
+                if t.chance(1, 4) {
+                    let n = b.counter;
+                    b.counter += 1;
+                    let l = match t.below(9) {
+                        0 => format!("zc{} :: zc{} + 1", n, n),
+                        1 => format!("zc{} :: zd{} + 1\nzd{} :: zc{}", n, n, n, n),
+                        2 => format!("zc{} := zc{}", n, n),
+                        3 => format!("zc{} :: zf{}()\nzf{} :: fn -> int do\n    ret zc{}\nend", n, n, n, n),
+                        4 => format!("zc{} :: 1\nzc{} :: 2", n, n),
+                        5 => format!("use zz_missing_{}", n),
+                        6 => "<<<<<<< HEAD".to_string(),
+                        7 => format!("zf{} :: fn do\n    break\nend", n),
+                        _ => format!("zc{} :: (fn -> int do\n    ret zc{}\nend)()", n, n),
+                    };
+                    b.top_extra.push(l);
+                    continue;
+                }
                 let line = match t.below(3) {
                     0 => match t.below(4) {
                         0 => format!("    {} := 1 +", q),
@@ -724,8 +751,9 @@ impl C20 {
                 if errors.iter().any(|x| x.rendered.is_none()) {
                     return Verdict::Discard("library-error-does-not-render".into());
                 }
-                labels.add(format!("errors:{}", if errors.len() >= 2 { ">=2" } else { "1" }));
-                labels.add(format!("first-error:{}", errors[0].kind));
+                labels.add(format!("errors:{}", if errors.len() >= 2 { ">=2" } else if errors.len() == 1 { "1" } else { "0" }));
+                // a rejection without any error (the library's business, C07) is still a rejection for the driver contract
+                labels.add(format!("first-error:{}", errors.first().map(|e| e.kind.clone()).unwrap_or_else(|| "none".into())));
                 None
             }
         };
@@ -1429,7 +1457,7 @@ impl Check for C20 {
     }
 
     fn rule(&self) -> String {
-        "case = configuration tuple decoded from the tape: program class (accepted | rejected by 1-3 planted syntax/name/type \
+        "case = configuration tuple decoded from the tape: program class (accepted | rejected by 1-3 planted syntax/name/type errors or top-level rejections: dependency cycles incl. self reference, duplicate definitions, missing file, loop exit outside a loop, conflict marker \
          errors in `start`, a helper function or a second file | accepted but failing at run time through a false `<=>` or a \
          reached `<!>`, directly, in a branch or in a called function) x uses-std (print/as_str) or std-free x mode (`-o FILE` \
          new / existing with short or 64 KiB previous content / in a missing directory / below a regular file / naming a \
